@@ -298,6 +298,15 @@ class Interp:
         if isinstance(v, Rat):
             if v.is_const() and spec in (None, '', 'd') and v.const_value().denominator == 1:
                 return SegStr.lit(str(int(v.const_value())))
+            if v.is_const() or v.iszero():
+                # a concrete number prints as Python prints it
+                cv = v.const_value() if not v.iszero() else Fr(0)
+                try:
+                    if spec and spec.startswith('%'):
+                        return SegStr.lit(spec % (int(cv) if spec.endswith('d') else float(cv)))
+                    return SegStr.lit(format(float(cv) if not (spec or '').endswith('d') else int(cv), spec or ''))
+                except (ValueError, TypeError):
+                    raise Unsupported('format spec %r for a number' % (spec,))
             w = None
             if spec:
                 try:
@@ -398,6 +407,11 @@ class Interp:
             return Elem(self.binop(op, x, y))
         if isinstance(a, SumV) or isinstance(b, SumV):
             return self._sum_binop(op, a, b)
+        if op == '+' and isinstance(a, CounterV) and isinstance(b, CounterV):
+            out = CounterV(dict(a.d))
+            for k, v in b.d.items():
+                out.d[k] = self.binop('+', out.d[k], v) if k in out.d else v
+            return out
         if op == '+' and (isinstance(a, (str, SegStr)) and isinstance(b, (str, SegStr))):
             if isinstance(a, str) and isinstance(b, str) and a not in self.sym_strings \
                     and b not in self.sym_strings:
@@ -585,6 +599,8 @@ class Interp:
         if isinstance(a, Rat) and isinstance(b, Rat):
             if a.eq(b):
                 return True
+            if (a - b).is_const():
+                return False
             raise Unsupported('equality of symbolic numbers inside containers')
         if type(a) is not type(b):
             return False
@@ -1441,6 +1457,11 @@ def builtin_call(I, fr, name, args, kwargs, n):
             return C(token_num(args[0].strip()).v)
         except Unsupported:
             raise _RaisedExc(Raised('ValueError', n))
+    if name == 'round':
+        v = args[0]
+        if isinstance(v, Rat) and (v.is_const() or v.iszero()) and len(args) == 1:
+            return C(round(v.const_value() if not v.iszero() else 0))
+        raise Unsupported('round() of a symbolic value', n)
     if name == 'iter':
         return args[0]
     if name == 'open':
@@ -1952,6 +1973,102 @@ def _np_anyall(which):
     return h
 
 
+def _regex_shape(pat):
+    try:
+        import re._parser as sp
+    except ImportError:                      # pragma: no cover
+        import sre_parse as sp
+    return repr(sp.parse(pat))
+
+
+_NUM_PREFIX = None
+_FORMULA = None
+
+
+def _re_search(I, fr, args, kwargs, n):
+    """re.search of the 'leading number' pattern on an abstract string"""
+    global _NUM_PREFIX
+    pat, s_ = args[0], args[1]
+    if _NUM_PREFIX is None:
+        _NUM_PREFIX = _regex_shape(r'^\d+\.?\d*')
+    if not isinstance(pat, str) or _regex_shape(pat) != _NUM_PREFIX:
+        raise Unsupported('regular expression %r is outside the modelled fragment' % (pat,), n)
+    sb = I.seg(s_)
+    if not sb.segs:
+        return None
+    first = sb.segs[0]
+    if first.kind == 'lit':
+        m_ = re.match(pat, first.text)
+        if not m_:
+            return None
+        if m_.end() == len(first.text) and len(sb.segs) > 1 and sb.segs[1].kind == 'field' \
+                and sb.segs[1].cls == 'num':
+            raise Unsupported('number continues into a symbolic numeric field', n)
+        mo = Obj('match', closed=True)
+        txt = m_.group()
+        mo.opaque_methods['group'] = lambda I_, o, a, k, t=txt: t
+        return mo
+    if first.cls == 'num':
+        mo = Obj('match', closed=True)
+        mo.opaque_methods['group'] = lambda I_, o, a, k, f_=first: SegStr([f_])
+        return mo
+    # user text: assumed not to start with a digit (species names: digits only after the first character)
+    return None
+
+
+def _re_findall(I, fr, args, kwargs, n):
+    """re.findall of the formula pattern ([A-Z][a-z]*)(\\d*) on an abstract formula"""
+    global _FORMULA
+    pat, s_ = args[0], args[1]
+    if _FORMULA is None:
+        _FORMULA = _regex_shape(r'([A-Z][a-z]*)(\d*)')
+    if not isinstance(pat, str) or _regex_shape(pat) != _FORMULA:
+        raise Unsupported('regular expression %r is outside the modelled fragment' % (pat,), n)
+    sb = I.seg(s_)
+    out = []
+    i = 0
+    segs = sb.segs
+    while i < len(segs):
+        sg = segs[i]
+        if sg.kind == 'field' and sg.cls == 'alpha':
+            sym = sg.value
+            cnt = ''
+            if i + 1 < len(segs):
+                nx = segs[i + 1]
+                if nx.kind == 'lit' and re.match(r'\d+', nx.text):
+                    d_ = re.match(r'\d+', nx.text).group()
+                    cnt = d_
+                    if len(d_) < len(nx.text):
+                        raise Unsupported('formula literal %r is not purely a count' % nx.text, n)
+                    i += 1
+                elif nx.kind == 'field' and nx.cls == 'num':
+                    cnt = SegStr([nx])
+                    i += 1
+            out.append(ListV([sym, cnt]))
+            i += 1
+            continue
+        if sg.kind == 'lit':
+            for sy, ct in re.findall(pat, sg.text):
+                out.append(ListV([sy, ct]))
+            i += 1
+            continue
+        raise Unsupported('formula contains %r' % (sg,), n)
+    return ListV(out)
+
+
+class CounterV(DictV):
+    """collections.Counter with symbolic totals (non-positive totals are NOT dropped here)"""
+
+
+def _counter(I, fr, args, kwargs, n):
+    c_ = CounterV()
+    if args:
+        if not isinstance(args[0], DictV):
+            raise Unsupported('Counter() of %r' % (args[0],), n)
+        c_.d.update(args[0].d)
+    return c_
+
+
 def _np_isclose(I, fr, args, kwargs, n):
     a, b = args[0], args[1]
     if isinstance(a, Rat) and isinstance(b, Rat):
@@ -2284,6 +2401,9 @@ NATIVE = {
     'numpy.roots': _np_roots,
     'numpy.mean': _np_mean,
     'numpy.isclose': _np_isclose,
+    're.search': _re_search,
+    're.findall': _re_findall,
+    'collections.Counter': _counter,
     'numpy.any': _np_anyall('any'),
     'numpy.all': _np_anyall('all'),
     'numpy.linspace': _np_linspace,
